@@ -301,6 +301,7 @@ func (x *Exec) modelInputs(ob *Obligation, paramT map[string]types.Type, timeout
 		}
 	}
 	out := map[string]Value{}
+	huge := false
 	for _, n := range names {
 		var rebuild func(v Value, path string) Value
 		rebuild = func(v Value, path string) Value {
@@ -312,7 +313,12 @@ func (x *Exec) modelInputs(ob *Obligation, paramT map[string]types.Type, timeout
 			case StrV:
 				ln := conc[n+path+".len"]
 				b := content[n+path]
-				if ln != nil && int64(len(b)) < ln.Int.Int64() {
+				if ln != nil && ln.Int.IsInt64() && int64(len(b)) < ln.Int.Int64() {
+					if ln.Int.Int64() > 1<<20 {
+						// a model with a gigantic string: not replayable (and not worth the memory)
+						huge = true
+						return v
+					}
 					b = append(b, make([]byte, ln.Int.Int64()-int64(len(b)))...)
 				}
 				return x.strLit(string(b))
@@ -326,6 +332,9 @@ func (x *Exec) modelInputs(ob *Obligation, paramT map[string]types.Type, timeout
 			return v
 		}
 		out[n] = rebuild(ob.Inputs[n], "")
+	}
+	if huge {
+		return nil, false
 	}
 	return out, true
 }
@@ -907,7 +916,24 @@ func isPanicKind(kind string) bool {
 	return false
 }
 
-func (x *Exec) buildReplay(repo, vdir, dir, prop string, ob *Obligation, r SolveResult, g *oblGroup, timeout time.Duration) ReplayResult {
+// buildReplay never lets a failure of the replay machinery take the check down: the failed
+// obligation is reported either way.
+func (x *Exec) buildReplay(repo, vdir, dir, prop string, ob *Obligation, r SolveResult, g *oblGroup, timeout time.Duration) (res ReplayResult) {
+	defer func() {
+		if rec := recover(); rec != nil {
+			os.MkdirAll(dir, 0o755)
+			path := filepath.Join(dir, sanitize(ob.Name)) + ".replay.json"
+			doc := &replayDoc{Property: prop, Obligation: ob.Name, Kind: ob.Kind, At: ob.Pos, Trace: ob.Trace, Solver: r.Status, Tried: r.Tried,
+				Note: fmt.Sprintf("the replay could not be constructed (%v); the failed obligation and solver output stand as the report", rec)}
+			b, _ := json.MarshalIndent(doc, "", " ")
+			os.WriteFile(path, append(b, '\n'), 0o644)
+			res = ReplayResult{Path: path}
+		}
+	}()
+	return x.buildReplayInner(repo, vdir, dir, prop, ob, r, g, timeout)
+}
+
+func (x *Exec) buildReplayInner(repo, vdir, dir, prop string, ob *Obligation, r SolveResult, g *oblGroup, timeout time.Duration) ReplayResult {
 	os.MkdirAll(dir, 0o755)
 	base := filepath.Join(dir, sanitize(ob.Name))
 	doc := &replayDoc{Property: prop, Obligation: ob.Name, Kind: ob.Kind, At: ob.Pos, Trace: ob.Trace, Solver: r.Status, Tried: r.Tried}
